@@ -23,6 +23,7 @@ def run(chk):
     TR.heff_networks(chk, src)
     TR.sweep_typestate(chk, src)
     TR.pack_unpack(chk, src)
+    TR.time_decoding(chk, src)
     chk.rule("krylov-hermitian", "operand of expm_krylov is a real multiple of a Hermitian operator for every time mode", 3)
     krylov_rule(chk, src, "krylov-hermitian", [TEVO])
     TR.decomposition_axes(chk, src, topologies=("generic",))
